@@ -121,9 +121,29 @@ package cluster
 //@   ensures result != nil && fresh(result)
 //@   ensures[C18.member.self-description] result.ID == c.config.id && result.Host == c.engine.address && result.Region == c.config.region && len(result.Kinds) == len(c.kinds) && forall(k, 0 <= k && k < len(c.kinds) ==> result.Kinds[k] == c.kinds[k].name)
 //@   loop 1
-//@     invariant 0 <= i && i <= len(c.kinds) && len(kinds) == len(c.kinds) && fresh(kinds) && forall(k, 0 <= k && k < i ==> kinds[k] == c.kinds[k].name)
-//@     decreases len(c.kinds) - i
+//@     invariant 0 <= idx && idx <= len(c.kinds) && len(kinds) == len(c.kinds) && fresh(kinds) && forall(k, 0 <= k && k < idx ==> kinds[k] == c.kinds[k].name)
+//@     decreases len(c.kinds) - idx
 //@     modifies elements(kinds)
+
+// The cluster-side queries of C18: each is one request to the node's own
+// agent and returns what the agent answered (the agent's answers are the
+// getMembers / getKinds cases of Agent.Receive).
+//@ func (c *Cluster).Members()
+//@   props C18
+//@   requires c != nil && engInv(c.engine)
+//@   modifies heap except private, mapof(c.engine.Registry.lookup), log, loglen
+//@   ghost at call Request#1 before: assert[C18.members.asks-the-own-agent] arg0 == c.engine && arg1 == c.agentPID && istype(arg2, getMembers)
+//@   ghost at call Result#1: got = result0; gerr = result1
+//@   ghost at return: assert[C18.members.returns-the-agents-answer] isnil(gerr) && istype(got, []*Member) ==> result == got.([]*Member)
+
+//@ func (c *Cluster).HasKind(name)
+//@   props C18
+//@   requires c != nil && engInv(c.engine)
+//@   modifies heap except private, mapof(c.engine.Registry.lookup), log, loglen
+//@   ghost at call Request#1 before: assert[C18.haskind.asks-the-own-agent] arg0 == c.engine && arg1 == c.agentPID && istype(arg2, getKinds)
+//@   ghost at call Result#1: got = result0; gerr = result1
+//@   ghost at return: assert[C18.haskind.true-exactly-for-a-listed-kind] isnil(gerr) && istype(got, []string) ==> (result == exists(j, 0 <= j && j < len(got.([]string)) && got.([]string)[j] == name))
+//@   ghost at return: assert[C18.haskind.false-without-an-answer] !isnil(gerr) ==> !result
 
 //@ func (s *SelfManaged).start(c)
 //@   trusted
@@ -366,7 +386,7 @@ package cluster
 //@   props C18 C19
 //@   prune
 //@   requires agentInv(a) && a.localKinds != nil && c != nil && engInv(c.engine)
-//@   requires istype(c.message, *Members) || istype(c.message, getMembers) || istype(c.message, *Activation) || istype(c.message, *Deactivation) || istype(c.message, *ActorTopology) || istype(c.message, *ActivationRequest) || istype(c.message, deactivate)
+//@   requires istype(c.message, *Members) || istype(c.message, getMembers) || istype(c.message, getKinds) || istype(c.message, *Activation) || istype(c.message, *Deactivation) || istype(c.message, *ActorTopology) || istype(c.message, *ActivationRequest) || istype(c.message, deactivate)
 //@   requires istype(c.message, *Members) ==> c.message.(*Members) != nil && allNonNil(c.message.(*Members).Members)
 //@   requires istype(c.message, *Activation) ==> c.message.(*Activation) != nil && c.message.(*Activation).PID != nil
 //@   requires istype(c.message, *Deactivation) ==> c.message.(*Deactivation) != nil && c.message.(*Deactivation).PID != nil
@@ -383,9 +403,29 @@ package cluster
 //@   ghost at call handleActivationRequest#1: areq = result
 //@   ghost at call Respond#2 before: assert[C19.receive.activation-request-answered] arg0 == c && arg1 == any(areq)
 //@   ghost at call bcast#1 before: assert[C19.receive.deactivate-announced-to-the-cluster] arg0 == a && istype(arg1, *Deactivation) && arg1.(*Deactivation) != nil && arg1.(*Deactivation).PID == c.message.(deactivate).pid
+//@   ghost at entry: kat = arbitrary("(Array Str Int)")
+//@   ghost at entry: did = 0; replied = 0
+//@   ghost at call handleActivation#1: did = 1
+//@   ghost at call handleDeactivation#1: did = 2
+//@   ghost at call handleActorTopology#1: did = 3
+//@   ghost at call handleActivationRequest#1: did = 4
+//@   ghost at call bcast#1: did = 5
+//@   ghost at call Respond: replied = replied + 1
+//@   ghost at return: assert[C19.receive.every-message-reaches-its-handler] (istype(c.message, *Activation) ==> did == 1) && (istype(c.message, *Deactivation) ==> did == 2) && (istype(c.message, *ActorTopology) ==> did == 3) &&
+//@        (istype(c.message, *ActivationRequest) ==> did == 4) && (istype(c.message, deactivate) ==> did == 5)
+//@   ghost at return: assert[C18.receive.queries-answered-exactly-once] (istype(c.message, getMembers) || istype(c.message, getKinds) || istype(c.message, *ActivationRequest) ==> replied == 1) &&
+//@        (istype(c.message, *Members) || istype(c.message, *Activation) || istype(c.message, *Deactivation) || istype(c.message, *ActorTopology) || istype(c.message, deactivate) ==> replied == 0)
+//@   ghost at storeelem#1: kat = store(kat, kind, i)
+//@   ghost at call Respond#4 before: assert[C18.receive.kinds-query-answered-with-exactly-the-kinds] arg0 == c && len(arg1.([]string)) == len(a.kinds) &&
+//@        forallS("Str", k, has(a.kinds, k) ==> 0 <= kat[k] && kat[k] < len(arg1.([]string)) && arg1.([]string)[kat[k]] == k) && forall(j, 0 <= j && j < len(arg1.([]string)) ==> has(a.kinds, arg1.([]string)[j]))
 //@   ensures[C18.receive.view-equals-snapshot] istype(old(c.message), *Members) ==> forallS("Str", id, has(a.members.members, id) ==> exists(j, 0 <= j && j < len(old(c.message).(*Members).Members) && old(c.message).(*Members).Members[j].ID == id)) &&
 //@        forall(j, 0 <= j && j < len(old(c.message).(*Members).Members) ==> has(a.members.members, old(c.message).(*Members).Members[j].ID))
 //@   ensures[C18.receive.query-changes-nothing] istype(old(c.message), getMembers) ==> forallS("Str", id, has(a.members.members, id) == old(has(a.members.members, id)))
+//@   loop 1
+//@     invariant[C18.kindsquery.inv.base] agentInv(a) && fresh(kinds) && len(kinds) == len(a.kinds) && i == count1 && 0 <= i && i <= len(a.kinds)
+//@     invariant[C18.kindsquery.inv.listed] forallS("Str", k, visited1[k] && has(a.kinds, k) ==> 0 <= kat[k] && kat[k] < i && kinds[kat[k]] == k)
+//@     invariant[C18.kindsquery.inv.only-kinds] forall(j, 0 <= j && j < i ==> has(a.kinds, kinds[j]))
+//@     modifies elements(kinds)
 
 // ---------------------------------------------------------------------------
 // Activations (C19, partial): the agent's map id -> PID of the actors known
@@ -531,11 +571,16 @@ package cluster
 //@        istype(arg2, *ActivationRequest) && arg2.(*ActivationRequest).Kind == kind && arg2.(*ActivationRequest).ID == config.id && loglen == entry(loglen)
 //@   ghost at call bcast#1 before: assert[C19.activate.announces-the-new-pid] arg0 == a && istype(arg1, *Activation) && arg1.(*Activation) != nil && arg1.(*Activation).PID == activationResp.PID && !old(has(a.activated, kind + "/" + config.id))
 //@   ghost at return#4: assert[C19.activate.returns-the-activated-pid] result == activationResp.PID
+//@   ghost at call bcast#1: announced = true
+//@   ghost at return#4: assert[C19.activate.success-is-announced] announced
 
 //@ func (a *Agent).handleGetActive(c, msg)
 //@   props C19
 //@   requires agentInv(a) && c != nil && engInv(c.engine)
 //@   modifies log, loglen
+//@   ghost at entry: answered = 0
+//@   ghost at call Respond: answered = answered + 1
+//@   ghost at return: assert[C19.getactive.answered-exactly-once] (len(msg.id) > 0) != (len(msg.kind) > 0) ==> answered == 1
 //@   ghost at call Respond#1 before: assert[C19.getactive.by-id] arg0 == c && len(msg.id) > 0 && arg1 == any(ite(has(a.activated, msg.id), a.activated[msg.id], nilof("*actor.PID")))
 //@   loop 1
 //@     invariant fresh(pids) && agentInv(a) && c != nil && engInv(c.engine)
